@@ -29,14 +29,14 @@ def wf_sptensor(S, allow_explicit_zero=False):
             probs.append("nnz_raises:" + type(e).__name__)
         return probs
     if not np.issubdtype(subs.dtype, np.integer):
-        probs.append("subs_not_integer:" + str(subs.dtype))
+        probs.append("subs_not_integer")
     if subs.ndim != 2 or subs.shape[1] != len(shape):
-        probs.append(f"subs_shape:{subs.shape}")
+        probs.append("subs_shape")
         return probs
     if vals.ndim != 2 or vals.shape[1] != 1:
-        probs.append(f"vals_shape:{vals.shape}")
+        probs.append("vals_shape")
     if subs.shape[0] != k:
-        probs.append(f"count_mismatch:{subs.shape[0]}!={k}")
+        probs.append("count_mismatch")
         return probs
     if np.any(subs < 0) or np.any(subs >= np.array(shape)[None, :]):
         probs.append("subs_out_of_range")
@@ -59,9 +59,9 @@ def wf_sptenmat(M, allow_explicit_zero=True):
     if vals.size == 0 and subs.size == 0:
         return probs
     if not np.issubdtype(subs.dtype, np.integer):
-        probs.append("subs_not_integer:" + str(subs.dtype))
+        probs.append("subs_not_integer")
     if subs.ndim != 2 or subs.shape[1] != 2:
-        probs.append(f"subs_shape:{subs.shape}")
+        probs.append("subs_shape")
         return probs
     k = vals.shape[0]
     if subs.shape[0] != k:
